@@ -470,6 +470,19 @@ func (e *Engine) resultFresh(call *ast.CallExpr) []bool {
 			any = true
 			fs := fl.setBefore(b, k)
 			if len(rs.Results) != len(res) {
+				// return t.cok.Transform(key): the results are the callee's, one for one
+				if len(rs.Results) == 1 {
+					if rc, isCall := ast.Unparen(rs.Results[0]).(*ast.CallExpr); isCall {
+						if inner := e.resultFresh(rc); len(inner) == len(res) {
+							for i := range res {
+								if !inner[i] {
+									res[i] = false
+								}
+							}
+							continue
+						}
+					}
+				}
 				for i := range res {
 					res[i] = false
 				}
